@@ -73,3 +73,48 @@ Theorem C18_simp_ok_answer : forall c roots c' gm, simplify c roots = Ok (c', gm
   ok_answer_b c roots c' gm = true.
 Proof. exact simp_ok_answer. Qed.
 Print Assumptions C18_simp_ok_answer.
+
+(** ** Errors and totality of the model *)
+
+Theorem C18_closed_b_spec : forall c roots, closed_b c roots = true <-> Closed c roots.
+Proof. exact closed_b_spec. Qed.
+Print Assumptions C18_closed_b_spec.
+
+(** [should_err_b] decides: some gate reachable from the roots lies on a cycle or
+    mentions an input [>= n_inputs] (incl. UNDEF) *)
+Theorem C18_should_err_b_spec : forall c roots, Closed c roots ->
+  (should_err_b c roots = true <->
+   exists g, Reach c roots g /\
+     (Path c g g \/ exists gt l, nth_error (gates c) g = Some gt /\ In l (gins gt) /\
+                                 unknown_input_b (n_inputs c) l = true)).
+Proof. exact should_err_b_spec. Qed.
+Print Assumptions C18_should_err_b_spec.
+
+(** every answer of the model on a closed circuit passes the audit that the driver
+    applies to the implementation; no index error, no fuel exhaustion *)
+Theorem C18_simp_total : forall c roots, Closed c roots ->
+  match simplify c roots with
+  | Ok (c', gm) => ok_answer_b c roots c' gm = true
+  | Err l => err_answer_b c roots l = true
+  | Crash => False
+  | Fuel => False
+  end.
+Proof. exact simp_total. Qed.
+Print Assumptions C18_simp_total.
+
+(** [simp_err_iff] *)
+Theorem C18_simp_err_iff : forall c roots, Closed c roots ->
+  ((exists l, simplify c roots = Err l) <->
+   exists g, Reach c roots g /\
+     (Path c g g \/ exists gt l, nth_error (gates c) g = Some gt /\ In l (gins gt) /\
+                                 unknown_input_b (n_inputs c) l = true)).
+Proof. exact simp_err_iff. Qed.
+Print Assumptions C18_simp_err_iff.
+
+(** an [Err] answer names a reachable gate on a cycle or an unknown input of a reachable gate *)
+Theorem C18_simp_err_justified : forall c roots l, Closed c roots -> simplify c roots = Err l ->
+  (exists g, l = gate_lit false g /\ Reach c roots g /\ Path c g g) \/
+  (unknown_input_b (n_inputs c) l = true /\
+   exists g gt, Reach c roots g /\ nth_error (gates c) g = Some gt /\ In l (gins gt)).
+Proof. exact simp_err_justified. Qed.
+Print Assumptions C18_simp_err_justified.
